@@ -82,7 +82,7 @@ TRUSTED = [
     "independence of a call from earlier / concurrent calls holds for the model by construction (pure functions of "
     "the arguments); the `conc` cases check it on the real code",
     "caller operations on the yielded deque: collections.deque(maxlen) semantics of append / appendleft / pop / popleft / "
-    "clear / extend / del / insert / item assignment / rotate / reverse incl. their IndexError cases are modelled "
+    "clear / extend / del / insert / item assignment (indices of either sign) / rotate / reverse incl. their IndexError cases are modelled "
     "(DqOp.apply), not verified; what they do to the following blocks is proved for every operation and every hop "
     "(blocks_mut_any_eq_spec for hop <= size, blocks_mut_any_hop_ge_size for hop >= size)",
     "Python's argument binding (ALV.C08.bind), the numeric tower as far as blocks uses it (int/bool exact in Int, float / "
@@ -635,7 +635,7 @@ def _ops(rng, size, nblocks):
         ops = []
         for _ in range(rng.choice([0, 1, 1, 2, 3])):
             k = rng.choice(["append", "appendleft", "pop", "popleft", "clear", "extend", "del", "insert", "set", "rot", "rev",
-                            "pop", "popleft", "append"])
+                            "pop", "popleft", "append", "seti", "deli", "inserti"])
             v = rng.choice(["X", "Y", -7, None, {"f": "1.5"}])
             if k in ("append", "appendleft"):
                 ops.append([k, v])
@@ -649,6 +649,10 @@ def _ops(rng, size, nblocks):
                 ops.append([k, rng.randrange(size + 2), v])
             elif k == "set":
                 ops.append([k, rng.randrange(size + 1), v])
+            elif k in ("seti", "inserti"):       # an index of either sign, in and out of range
+                ops.append([k, rng.randint(-size - 2, size + 1), v])
+            elif k == "deli":
+                ops.append([k, rng.randint(-size - 2, size + 1)])
             elif k == "rot":
                 ops.append([k, rng.randint(-size - 1, size + 1)])
             else:
@@ -1267,8 +1271,12 @@ def _apply_op(blk, op, reg):
         blk.extend([untag(v, reg) for v in op[1]])
     elif k == "del":
         del blk[op[1]]
-    elif k == "insert":
+    elif k == "insert" or k == "inserti":
         blk.insert(op[1], untag(op[2], reg))
+    elif k == "seti":
+        blk[op[1]] = untag(op[2], reg)
+    elif k == "deli":
+        del blk[op[1]]
     else:
         raise ValueError("op " + k)
 
